@@ -86,6 +86,8 @@ def audit(check, modules, theorems):
     """fills check.obligations/discharged/axioms; records broken obligations"""
     check.obligations = list(theorems)
     ok, log = lake_build()
+    if ok:
+        ok, log = lake_build(list(modules))
     if not ok:
         # which module failed?
         failed = re.findall(r"error: (\S+\.lean):(\d+)", log)
